@@ -559,10 +559,25 @@ def paint_doc(rng, allow_redundant=False, root_opacity=False, **opt):
         if "opacity" not in own_props(grp) and r.random() < 0.7:
             grp.attrs["opacity"] = r.choice(("0.5", "0.4", "0.7"))
         x, y = g.num(5, 50), g.num(5, 50)
-        for i in range(r.randint(1, 3)):
-            s = Node("rect", {"x": fnum(x + 12 * i), "y": fnum(y + 9 * i), "width": fnum(g.num(20, 40)), "height": fnum(g.num(20, 40))})
-            g.cascade_attrs(s, leaf=True)
-            grp.children.append(s)
+        if r.random() < 0.5:
+            for i in range(r.randint(1, 3)):
+                s = Node("rect", {"x": fnum(x + 12 * i), "y": fnum(y + 9 * i), "width": fnum(g.num(20, 40)), "height": fnum(g.num(20, 40))})
+                g.cascade_attrs(s, leaf=True)
+                grp.children.append(s)
+        else:
+            # varied overlap structure: wide banners, tall bars, small squares - some pairs overlap, some do not
+            for i in range(r.randint(3, 5)):
+                k = r.random()
+                if k < 0.3:
+                    a = {"x": fnum(g.num(0, 10)), "y": fnum(g.num(0, 85)), "width": fnum(g.num(70, 95)), "height": fnum(g.num(6, 14))}
+                elif k < 0.5:
+                    a = {"x": fnum(g.num(0, 85)), "y": fnum(g.num(0, 10)), "width": fnum(g.num(6, 14)), "height": fnum(g.num(70, 95))}
+                else:
+                    a = {"x": fnum(g.num(5, 70)), "y": fnum(g.num(5, 70)), "width": fnum(g.num(12, 30)), "height": fnum(g.num(12, 30))}
+                s = Node("rect", a)
+                g.cascade_attrs(s, leaf=True)
+                grp.children.append(s)
+            g.f["translucent_group_varied_overlap"] += 1
         g.f["translucent_group_overlap" if len(grp.children) > 1 else "translucent_group_single"] += 1
         if r.random() < 0.3:
             inner = Node("g", {"opacity": r.choice(("0.5", "0.8"))}, [grp])
